@@ -72,12 +72,29 @@ def fallback_rule(repo: Repo, rep: Report, rid: str) -> None:
             rep.check(ok, rid, key, "try/except Exception: success sets _read and __compiled__=True, failure keeps the interpreted reader",
                       "fallback does not leave the class with the interpreted _read and __compiled__ false", fi.loc(tr))
     rep.floor(rid, "call sites into the source generator", n, 2)
+
+
+def union_guard_rule(repo: Repo, rep: Report, rid: str) -> None:
     comp = repo.func("compiler.py", "Compiler.compile")
     g = CFG(comp.node)
     early = [x for x in g.nodes if x.kind == "if" and "Union" in norm(x.ast.test) and any(isinstance(s, ast.Return) for s in x.ast.body)]
     trys = [x for x in g.nodes if x.kind == "try"]
-    rep.check(bool(early) and bool(trys) and all(g.must_pass(g.entry.id, t.id, {e.id for e in early}) for t in trys), rid, f"{comp.key}:union",
-              "unions return before compilation", "Compiler.compile no longer returns unions uncompiled", comp.loc())
+    ok = bool(early) and bool(trys) and all(g.must_pass(g.entry.id, t.id, {e.id for e in early}) for t in trys)
+    if not ok:
+        # positive form: everything that compiles sits under 'if not issubclass(structure, Union):'
+        from ..boolalg import Formula
+
+        def interp(e: ast.AST):
+            if isinstance(e, ast.Call) and call_name(e) == "issubclass" and len(e.args) == 2 and norm(e.args[1]).split(".")[-1] == "Union":
+                return "UNION"
+            return None
+
+        gates = [x for x in g.nodes if x.kind == "if" and "Union" in norm(x.ast.test) and Formula(x.ast.test, interp).always({"UNION": True}, False)]
+        work = [x for x in g.nodes if x.kind in ("try", "stmt") and x.ast is not None and
+                any(isinstance(c, ast.Call) and call_name(c) in ("compile_read", "_try_compile", "generate") or (isinstance(c, ast.Call) and "compile" in (call_name(c) or "") and call_name(c) != "compile")
+                    for c in ast.walk(x.ast))]
+        ok = bool(gates) and bool(work) and all(any(w.id in g.reachable(gt.id, first_edge="T", avoid={gt.id}) and g.must_pass(g.entry.id, w.id, {gt.id}) for gt in gates) for w in work)
+    rep.check(ok, rid, f"{comp.key}:union", "unions return before compilation", "Compiler.compile no longer returns unions uncompiled", comp.loc())
 
 
 def _read_assigned_outside_try(fi, tr: ast.Try) -> bool:
@@ -570,7 +587,13 @@ def run(repo: Repo, rep: Report, tier: str) -> None:
 
     unit_switch_rule(repo, rep, "C03.R9")
     offsets_before_compile_rule(repo, rep, "C03.R10")
-    fallback_rule(repo, rep, "C03.R1")
+    from .c18 import update_fields_fold
+    from .compiled import fallback_rule as _fb
+
+    # both sites are decided by outcome where the folds can interpret them: a failed compile() leaves the interpreted reader bound to the class
+    # (compiled fold), a failed recompilation puts classmethod(Structure._read.__func__) and __compiled__ = False into the class dict (_update_fields fold)
+    _fb(repo, rep, fold_decides(repo, tier) and update_fields_fold(repo) is not None, "the compiled-reader fold and the _update_fields fold", fallback_rule, "C03.R1")
+    union_guard_rule(repo, rep, "C03.R1")  # unions are never compiled: not covered by the folds, always armed
     neutral_rule(repo, rep, "C03.R2")
     bookkeeping_rule(repo, rep, "C03.R3", sizes_decided=fold_decides(repo, tier))
     call_time_rule(repo, rep, "C03.R4")
